@@ -8,6 +8,8 @@ import Driver.C15Mon
 import Driver.C16
 import Driver.C16Lin
 import Driver.C16Mon
+import Driver.C17
+import Driver.C17Mon
 
 def suites : List (String × Driver.Suite) :=
   Driver.C12.suites ++
@@ -18,7 +20,9 @@ def suites : List (String × Driver.Suite) :=
   Driver.C15Mon.suites ++
   Driver.C16.suites ++
   Driver.C16Lin.suites ++
-  Driver.C16Mon.suites
+  Driver.C16Mon.suites ++
+  Driver.C17.suites ++
+  Driver.C17Mon.suites
 
 def main (args : List String) : IO UInt32 := do
   match args with
